@@ -9,6 +9,6 @@ CONSTANTS
   Urgent = TRUE
   Guarded = TRUE
 VIEW view
-INVARIANTS TypeOK AppliedIsSourcePrefix NoCrash EndStateEqualsLive NoSwitchRace
+INVARIANTS TypeOK AppliedIsSourcePrefix NoCrash EndStateEqualsLive NoSwitchRace NoAmbiguity
 PROPERTIES NeverApplyUnjustified
 CHECK_DEADLOCK FALSE
